@@ -34,7 +34,12 @@ spec->code: TLC prints one line per completed public operation (history, verdict
             calls; angles are compared with r / D(z), D = the distance method
             the spec names (angular_diameter_distance for kpc/Mpc,
             comoving_distance for kpc/h, Mpc/h) of the configured cosmology
-            object itself; the curved / custom distances are cross-checked
+            object itself, for EVERY observation of the operation's schedule
+            (create/modify: the new object twice; a configuration built with
+            the public constructor from the parts OBJECTS of a donor and another
+            cosmology: donor and new object in both orders, each repeatedly -
+            conversions are pure); a mismatch is classified by a fresh Scales
+            object (conversion wrong / state carried between conversions); the curved / custom distances are cross-checked
             against an own Friedmann integral resp. the closed forms.
 oracle    : a violation is raised only from the real objects: outcome class
             (raised / returned) against the declared verdict, projection against
@@ -69,10 +74,10 @@ from harness.core import Ctx
 from harness.tlaval import to_tla
 from harness.yawenv import scratch
 
-INVS = ["TypeOK", "Validation", "ModifyEqualsCreate", "OriginalUnchanged", "WellFormed", "EqualParamsCompareEqual",
+INVS = ["TypeOK", "Validation", "ModifyEqualsCreate", "RebuildEqualsCreate", "OriginalUnchanged", "WellFormed", "EqualParamsCompareEqual",
         "EqNeverRaises", "RoundTripIdentity", "AnglesUseConfiguredCosmology"]
 ACTIONS = ["SomeCreate", "CreateParseCosmology", "CreateScales", "CreateBinning", "CreateConstruct", "SomeModify",
-           "ModifyScales", "ModifyBinning", "ModifyCosmology", "ModifyConstruct", "Raise", "ObserveAngles", "ObserveEq",
+           "ModifyScales", "ModifyBinning", "ModifyCosmology", "ModifyConstruct", "SomeRebuild", "RebuildConstruct", "Raise", "ObserveAngles", "ObserveEq",
            "ObserveToDict", "ObserveFromDict", "Finish"]
 KEYS = ["rmin", "rmax", "unit", "rw", "res", "zmin", "zmax", "nb", "method", "edges", "closed", "cosmo", "workers"]
 PFIELDS = KEYS  # order of CompactParams
@@ -91,7 +96,12 @@ DEVIATIONS = {
     "ComovingCustomFloats": ("Validation", "binning_step", dict(methods=["comoving"], cosmos=["custom"]), dict()),
     "InexactEndPoints": ("Validation", "end_points", dict(methods=["comoving"]), dict()),
     "PhysicalViaComoving": ("AnglesUseConfiguredCosmology", "angle", dict(cosmos=["open"]), dict()),
+    "AngleMemoIgnoresCosmology": ("AnglesUseConfiguredCosmology", "angle_seq", dict(), dict(rebuild=[("WMAP9", ("d", "n"))])),
+    "AngularInPlace": ("AnglesUseConfiguredCosmology", "angle_seq", dict(units=["arcmin"]), dict()),
 }
+# observation schedules of a rebuild ("d" donor, "n" new configuration): both orders, each object repeatedly
+SCHEDS_QUICK = [("d", "n", "d"), ("n", "d", "n")]
+SCHEDS_FULL = SCHEDS_QUICK + [("d", "n"), ("n", "d"), ("d", "d", "n", "n"), ("n", "n", "d", "d")]
 # cosmology kinds: with / without the identity D_A(z) = D_C(z) / (1+z)
 CUSTOM = ("custom", "customDA")
 CURVED = ("open", "closed")
@@ -123,7 +133,7 @@ def make_slice(name, P, D=None, modkeys=(), maxmods=0, maxdelta=0, workers=2):
                   edges=[()], closeds=["right"], cosmos=["omitted"], workers=[NONE])
     base_p.update(P)
     base_d = dict(rmin=[], rmax=[], unit=[], rw=[], res=[], zmin=[], zmax=[], nb=[], method=[], edges=[], closed=[],
-                  cosmo=[], workers=[])
+                  cosmo=[], workers=[], rebuild=[])
     base_d.update(D or {})
     if not modkeys:
         modkeys = [k for k in KEYS if base_d[k]]
@@ -212,6 +222,17 @@ def slices(quick: bool) -> list[dict]:
                  edges=[E2, ()], closed=["left"], cosmo=["WMAP9", "none"], workers=[4]),
             maxmods=2 if quick else 3, maxdelta=1, workers=4),
     ]
+    # Configuration(scales, binning, cosmology=...) from the PARTS of an existing configuration (shared parts objects), angles observed
+    # on donor and new configuration in both orders and repeatedly: every unit; then histories (rebuild of a rebuild, modify after it)
+    scheds = SCHEDS_QUICK if quick else SCHEDS_FULL
+    rtoks = ["WMAP9", "open", "customDA", "none", "s:Bogus"] + ([] if quick else ["closed", "custom", "s:WMAP9", "badtype"])
+    out.append(make_slice("rebuild", dict(scales=[S1, S2], units=UNITS, methods=["linear"] if quick else ["linear", "logspace"],
+                                          cosmos=["omitted", "open", "customDA", "WMAP9"]),
+                          dict(rebuild=[(t, sc) for t in rtoks for sc in scheds]), maxmods=1, maxdelta=0, workers=4))
+    out.append(make_slice("rebuild-histories", dict(units=["kpc", "Mpc/h", "arcmin"] if quick else ["kpc", "Mpc", "Mpc/h", "arcsec"],
+                                                    zpairs=[(10, 100), (NONE, NONE)], edges=[(), E1], cosmos=["omitted", "open"]),
+                          dict(rebuild=[(t, sc) for t in ["WMAP9", "customDA", "none"] for sc in scheds[:4]],
+                               unit=["Mpc"], cosmo=["closed"], rmin=[(50,)]), maxmods=2 if quick else 3, maxdelta=1, workers=4))
     # modifications to FALSY values (None, 0.0) must be honoured like any other value
     out.append(make_slice("modify-falsy", dict(rw=[(1, 20), (3, 50)], cosmos=["omitted"], workers=[NONE, 4]),
                           dict(rw=[NONE, 0, 2], res=[NONE, 10], workers=[NONE, 4]), maxmods=1, maxdelta=1 if quick else 2))
@@ -232,8 +253,8 @@ def deviation_slice() -> dict:
     return make_slice(
         "deviations",
         dict(zpairs=[(10, 100), (0, 100), (NONE, NONE)], edges=[(), E1], methods=["linear", "comoving"],
-             cosmos=["omitted", "WMAP9", "custom", "open"]),
-        dict(rmin=[(50,)], closed=["left"], edges=[()], cosmo=["s:WMAP9"], workers=[4]),
+             cosmos=["omitted", "WMAP9", "custom", "open"], units=["kpc", "arcmin"]),
+        dict(rmin=[(50,)], closed=["left"], edges=[()], cosmo=["s:WMAP9"], workers=[4], rebuild=[("WMAP9", ("d", "n"))]),
         maxmods=1, maxdelta=1, workers=1,
     )
 
@@ -262,11 +283,11 @@ def parse_cases(out: str) -> list:
 
 
 class Case:
-    __slots__ = ("p0", "mods", "op", "out", "err", "step", "verdict", "obj", "decl", "rs", "rb", "rc", "angle", "eq", "rt")
+    __slots__ = ("p0", "mods", "op", "out", "err", "step", "verdict", "obj", "decl", "rs", "rb", "rc", "angle", "eq", "rt", "seq")
 
     def __init__(self, t) -> None:
         (_, self.p0, self.mods, (self.op, self.out, self.err, self.step, self.verdict), self.obj, self.decl,
-         self.rs, self.rb, self.rc, self.angle, self.eq, self.rt) = t
+         self.rs, self.rb, self.rc, self.angle, self.eq, self.rt, self.seq) = t  # seq: ((who, measure, div, pow, cosmology), ...)
 
     @property
     def key(self):
@@ -417,6 +438,8 @@ class World:
                 kw["cosmology"] = self.cosmo_arg(v)
             elif k == "workers":
                 kw["max_workers"] = None if v == NONE else v
+            elif k == "rebuild":  # not a modify: Configuration(cfg.scales, cfg.binning, cosmology=..., max_workers=cfg.max_workers)
+                kw["cosmology"] = self.cosmo_arg(v[0])
         return kw
 
     # -- real -> abstract ---------------------------------------------------
@@ -525,8 +548,8 @@ class World:
                 repr(cfg.scales.rweight), repr(cfg.scales.resolution), id(cfg.cosmology), repr(cfg.max_workers),
                 id(cfg.scales), id(cfg.binning), id(cfg.binning.binning), id(cfg.scales.scales))
 
-    def expected_angle(self, r, measure, div, cid, z):
-        r = np.atleast_1d(np.asarray(r, dtype=float)) / div
+    def expected_angle(self, r, measure, div, cid, z, pow=1):
+        r = np.atleast_1d(np.asarray(r, dtype=float)) / float(div) ** pow
         if measure == "rad":
             return r
         if measure == "deg":
@@ -624,6 +647,10 @@ def cosmo_class(tok: str) -> str:
     return "named"
 
 
+def is_rebuild(delta) -> bool:
+    return bool(delta) and delta[0][0] == "rebuild"
+
+
 def resolved_default(tok: str) -> str:
     return "default" if tok in ("omitted", "none", "Planck15", "s:Planck15") else "nondefault"
 
@@ -636,8 +663,10 @@ class Replayer:
         self.symptoms: dict = {}  # history -> {"entry|outcome"} reported for it
         self.passed: list[Case] = []  # accepted cases whose real result matched (for the binding demonstration)
         self.passed_angles: list[Case] = []  # ... physical unit, cosmology without D_A = D_C/(1+z), real angles matched
+        self.passed_rebuilds: list = []  # (create case, rebuild case): distance unit, other cosmology, all scheduled angles matched
+        self.served: dict = {}  # id(Scales object) -> (object, [cosmology ids it converted angles for, in order])
         self.stats = dict(cases=0, skipped_below_divergence=0, open_cases=0, accept=0, reject=0, comoving=0, substeps=0,
-                          angles=0, angles_measures_differ=0, eq=0, roundtrips=0, files=0, end_point_error=dict(logspace=0.0, comoving=0.0))
+                          angles=0, angles_measures_differ=0, angles_repeated=0, angles_on_shared_parts_other_cosmology=0, rebuilds=0, eq=0, roundtrips=0, files=0, end_point_error=dict(logspace=0.0, comoving=0.0))
 
     # ---- classes for the structural keys -----------------------------------
     def binning_class(self, case: Case, parent_obj, to_obj, cosmo=True) -> str:
@@ -718,6 +747,8 @@ class Replayer:
         if case.op == "create":
             return f"cosmology={cosmo_class(dict(zip(PFIELDS, case.p0))['cosmo'])}"
         d = dict(case.mods[-1])
+        if "rebuild" in d:
+            return f"cosmology={cosmo_class(d['rebuild'][0])}"
         return f"cosmology={cosmo_class(d['cosmo']) if 'cosmo' in d else 'kept'}"
 
     def class_for(self, group: str, case: Case, parent_obj, to_obj=None, cosmo=True) -> str:
@@ -783,7 +814,11 @@ class Replayer:
         s = f"cfg = Configuration.create({pyrepr(self.w.create_kwargs(case.p0, v))})"
         mods = case.mods if upto is None else case.mods[:upto]
         for d in mods:
-            s += f"; cfg = cfg.modify({pyrepr(self.w.delta_kwargs(d, v))})"
+            if is_rebuild(d):
+                s += f"; donor = cfg; cfg = Configuration(donor.scales, donor.binning, {pyrepr(self.w.delta_kwargs(d, v))}, max_workers=donor.max_workers)"
+                s += "; " + "; ".join(f"{'cfg' if who == 'n' else 'donor'}.scales.scales.get_angle_radian(z, {'cfg' if who == 'n' else 'donor'}.cosmology)" for who in d[0][1][1])
+            else:
+                s += f"; cfg = cfg.modify({pyrepr(self.w.delta_kwargs(d, v))})"
         return s
 
     @staticmethod
@@ -824,7 +859,7 @@ class Replayer:
         w, ctx = self.w, self.ctx
         self.stats["cases"] += 1
         v = self.variant(case.p0)
-        entry = "Configuration.create" if case.op == "create" else "Configuration.modify"
+        entry = {"create": "Configuration.create", "rebuild": "Configuration.__init__"}.get(case.op, "Configuration.modify")
         if case.op == "create":
             kwargs = w.create_kwargs(case.p0, v)
             parent_cfg, parent_obj, taint, tsrc = None, None, 0.0, None
@@ -833,7 +868,11 @@ class Replayer:
             parent_cfg, parent_obj, taint, tsrc = parent
             kwargs = w.delta_kwargs(case.mods[-1], v)
             before = w.snapshot(parent_cfg)
-            kind, val = call(parent_cfg.modify, **kwargs)
+            if case.op == "rebuild":  # the public constructor on the donor's own parts objects
+                self.stats["rebuilds"] += 1
+                kind, val = call(w.Configuration, parent_cfg.scales, parent_cfg.binning, max_workers=parent_cfg.max_workers, **kwargs)
+            else:
+                kind, val = call(parent_cfg.modify, **kwargs)
             if w.snapshot(parent_cfg) != before:
                 self.report_op(case, entry, "other", "original_mutated", parent_obj, self.detail(case))
                 self.poisoned.add(id(parent_cfg))  # this object no longer is what the model thinks: stop using it
@@ -848,7 +887,7 @@ class Replayer:
 
         exp_out = case.out  # "ok" | "rejects"
         real_out = "ok" if kind == "ok" else "rejects"
-        keep_parent = (parent_cfg, parent_obj, taint, tsrc) if case.op == "modify" else None
+        keep_parent = (parent_cfg, parent_obj, taint, tsrc) if case.op != "create" else None
         if case.obj and TOL.get(case.obj[5], 0.0) > taint:
             taint, tsrc = TOL[case.obj[5]], case.obj[5]  # end points of these bins are only approximately zmin/zmax
         self.taint, self.tsrc = taint, tsrc
@@ -935,6 +974,9 @@ class Replayer:
         one raising the same exception type is the failing step."""
         w = self.w
         et = type(exc)
+        if case.op == "rebuild":
+            k, c = call(w.parse_cosmology, kwargs["cosmology"])
+            return "cosmology" if k == "raises" and type(c) is et else "whole"
         sk = {k: kwargs[k] for k in ("rmin", "rmax", "unit", "rweight", "resolution") if k in kwargs}
         bk = {k: kwargs[k] for k in ("zmin", "zmax", "num_bins", "method", "edges", "closed") if k in kwargs}
         if case.op == "create":
@@ -1007,6 +1049,10 @@ class Replayer:
                 k3, r = call(w.BinningConfig.create, **bk, cosmology=c)
                 compare("BinningConfig.create", "binning", case.rb[:3], k3, r, lambda b: w.proj_binning(b, case.rb[2][6], self.taint))
             return
+        if case.op == "rebuild":
+            k4, c = call(w.parse_cosmology, kwargs["cosmology"])
+            compare("parse_cosmology", "cosmology", case.rc, k4, c, w.cosmo_id)
+            return
         k2, r = call(parent_cfg.scales.modify, **sk)
         compare("ScalesConfig.modify", "scales", case.rs, k2, r, w.proj_scales)
         if case.rb[0] != "-":
@@ -1024,34 +1070,66 @@ class Replayer:
         report = ctx.violation if demanded else ctx.drift
         obj = case.obj
         unit = obj[2]
-        # angles: r / D(z) for the unit's distance measure and the configured cosmology
+        # angles: EVERY observation of the schedule is r / D(z) for the unit's distance measure and the cosmology of the
+        # configuration observed, whatever was observed before on it or on a configuration sharing its parts (purity)
         measure, div, cid, rel = case.angle
-        angles_ok = True
         if rel == REL_FREE and measure in ("angular_diameter_distance", "comoving_distance"):
             self.stats["angles_measures_differ"] += 1  # a case that tells the two distance measures apart
-        for z in Z_PROBE:
-            self.stats["angles"] += 1
-            k, ang = call(cfg.scales.scales.get_angle_radian, z, cfg.cosmology)
-            if k == "raises":
-                angles_ok = False
-                report(f"C15|get_angle_radian|unit={unit},cosmology={cosmo_class(cid) if cid in CUSTOM + CURVED + ('anon',) else 'named'}|raises_{type(ang).__name__}",
-                       self.detail(case, z=z, error=repr(ang)[:300]))
-                break
+        if case.op == "rebuild" and (cfg.scales is not parent_cfg.scales or cfg.binning is not parent_cfg.binning):
+            ctx.drift("C15|Configuration.__init__|parts_not_shared_with_the_donor", self.detail(case))
+        angles_ok, shared_other = True, False
+        for who, measure, div, pw, cid in case.seq:
+            target = cfg if who == "n" else parent_cfg
+            sc = target.scales.scales
+            served = self.served.setdefault(id(sc), (sc, []))[1]  # cosmologies this Scales object served before (and keeps it alive)
+            state = "" if not served else (",repeated" if all(h == cid for h in served) else ",parts_shared_other_cosmology")
+            if state:
+                self.stats["angles_repeated" if state == ",repeated" else "angles_on_shared_parts_other_cosmology"] += 1
+                shared_other = shared_other or state != ",repeated"
+            before = (sc.scale_min.tobytes(), sc.scale_max.tobytes())
             bad = False
-            for got, toks in zip(ang, (obj[0], obj[1])):
-                exp = w.expected_angle([float(t) for t in toks], measure, div, cid, z)
-                if np.shape(got) != np.shape(exp) or not np.allclose(got, exp, rtol=1e-10, atol=0.0):
-                    report(f"C15|get_angle_radian|unit={unit}|angle_differs",
-                           self.detail(case, z=z, got=np.asarray(got).tolist(), expected=exp.tolist(), measure=measure, divisor=div, cosmology=cid,
-                                       distance_measures_of_this_cosmology=rel,
-                                       real_angle_is=w.angle_diagnosis(got, toks, div, cid, z) if np.ndim(got) == 1 else "?"))
+            for zi, z in enumerate(Z_PROBE):
+                self.stats["angles"] += 1
+                k, ang = call(sc.get_angle_radian, z, target.cosmology)
+                if k == "raises":
                     bad = True
+                    report(f"C15|get_angle_radian|unit={unit},cosmology={cosmo_class(cid) if cid in CUSTOM + CURVED + ('anon',) else 'named'}|raises_{type(ang).__name__}",
+                           self.detail(case, z=z, error=repr(ang)[:300], observed="new" if who == "n" else "donor"))
                     break
+                for got, toks in zip(ang, (obj[0], obj[1])):
+                    exp = w.expected_angle([float(t) for t in toks], measure, div, cid, z, pw)
+                    if np.shape(got) != np.shape(exp) or not np.allclose(got, exp, rtol=1e-10, atol=0.0):
+                        # a defect of the conversion itself or of state carried between conversions?  a FRESH Scales object tells
+                        cls = state or (",repeated" if zi > 0 else "")  # conversions at earlier redshifts count as well
+                        if cls:
+                            kf, fresh = call(lambda: w.ScalesConfig.create(rmin=[float(t) for t in obj[0]], rmax=[float(t) for t in obj[1]], unit=unit)
+                                             .scales.get_angle_radian(z, target.cosmology))
+                            if kf == "raises" or not all(np.shape(f) == np.shape(e) and np.allclose(f, e, rtol=1e-10, atol=0.0) for f, e in zip(
+                                    fresh, (w.expected_angle([float(t) for t in tk], measure, div, cid, z, pw) for tk in (obj[0], obj[1])))):
+                                cls = ""
+                        report(f"C15|get_angle_radian|unit={unit}{cls}|angle_differs",
+                               self.detail(case, z=z, got=np.asarray(got).tolist(), expected=exp.tolist(), measure=measure, divisor=div, cosmology=cid,
+                                           observed="new" if who == "n" else "donor", schedule="".join(x[0] for x in case.seq),
+                                           this_scales_object_served_before=list(served), distance_measures_of_this_cosmology=rel,
+                                           real_angle_is=w.angle_diagnosis(got, toks, div, cid, z) if np.ndim(got) == 1 else "?"))
+                        bad = True
+                        break
+                if bad:
+                    break
+            served.append(cid)
+            if (sc.scale_min.tobytes(), sc.scale_max.tobytes()) != before:
+                report(f"C15|get_angle_radian|unit={unit}|configuration_mutated",
+                       self.detail(case, observed="new" if who == "n" else "donor", scale_min=sc.scale_min.tolist(), scale_max=sc.scale_max.tolist()))
+                self.poisoned.update((id(cfg), id(target)))  # these objects no longer are what the model thinks
+                return
             if bad:
                 angles_ok = False
                 break
         if angles_ok and demanded and rel == REL_FREE and unit in ("kpc", "Mpc") and case.op == "create" and len(self.passed_angles) < 8:
             self.passed_angles.append(case)
+        if (angles_ok and demanded and case.op == "rebuild" and len(case.mods) == 1 and shared_other and unit in ("kpc", "Mpc", "kpc/h", "Mpc/h")
+                and len(self.passed_rebuilds) < 4):
+            self.passed_rebuilds.append((self.by_key[(case.p0, ())], case))
         # twin: a configuration freshly created from the declared (merged) parameters
         tk, twin = call(w.Configuration.create, **w.create_kwargs(case.decl, 3))
         if tk == "raises":
@@ -1065,9 +1143,9 @@ class Replayer:
             report(f"C15|Configuration.create|merged_parameters,binning={obj[5]}|{self.first_diff(tproj, obj)}_differs",
                    self.detail(case, real_object=dict(zip(OBJ_FIELDS, tproj))))
             return
-        if case.op == "modify":
+        if case.op != "create":
             if cfg.binning.edges.shape != twin.binning.edges.shape or not np.allclose(cfg.binning.edges, twin.binning.edges, rtol=0.0, atol=2 * taint + 1e-15):
-                report(f"C15|Configuration.modify|binning={obj[5]}|edges_differ_from_create_of_merged_parameters",
+                report(f"C15|{'Configuration.__init__' if case.op == 'rebuild' else 'Configuration.modify'}|binning={obj[5]}|edges_differ_from_create_of_merged_parameters",
                        self.detail(case, modify=cfg.binning.edges.tolist(), create=twin.binning.edges.tolist()))
         # equality
         self.stats["eq"] += 1
@@ -1160,8 +1238,8 @@ def compact_params(p: dict) -> tuple:
 
 def compact_delta(d: dict) -> tuple:
     unset = dict(rmin=[-2], rmax=[-2], unit="~", rw=-2, res=-2, zmin=-2, zmax=-2, nb=-2, method="~", edges=[-2], closed="~",
-                 cosmo="~", workers=-2)
-    return tuple((k, _tup(d[k]) if isinstance(d[k], list) else d[k]) for k in KEYS if d[k] != unset[k])
+                 cosmo="~", workers=-2, rebuild=[])
+    return tuple((k, _tup(d[k]) if isinstance(d[k], list) else d[k]) for k in KEYS + ["rebuild"] if d[k] != unset[k])
 
 
 def compact_obj(o: dict) -> tuple:
@@ -1188,8 +1266,12 @@ def replay_counterexample(world: World, state: dict, aspect: str) -> dict:
             break
         prev = cfg
         kw = world.delta_kwargs(d, v)
-        hist += f".modify({pyrepr(kw)})"
-        kind, new = call(cfg.modify, **kw)
+        if is_rebuild(d):
+            hist = f"Configuration(({hist}).scales, (...).binning, {pyrepr(kw)})"
+            kind, new = call(world.Configuration, cfg.scales, cfg.binning, max_workers=cfg.max_workers, **kw)
+        else:
+            hist += f".modify({pyrepr(kw)})"
+            kind, new = call(cfg.modify, **kw)
         if kind == "ok":
             cfg = new
         elif i < len(mods) - 1:
@@ -1238,6 +1320,25 @@ def replay_counterexample(world: World, state: dict, aspect: str) -> dict:
 
             real["angle"] = dict(matches_deviation=matches(a["measure"]), matches_declared=matches("angular_diameter_distance"))
             present = real["angle"]["matches_deviation"] and not real["angle"]["matches_declared"]
+    elif aspect == "angle_seq":  # the scheduled observations, in order, on the real objects ("d": the donor of the last operation)
+        seq = [(o["who"], o["angle"]["measure"], o["angle"]["div"], o["angle"]["pow"], o["angle"]["cosmo"]) for o in last["obs"]["seq"]]
+        model["angle_seq"] = seq
+        present = False
+        if kind == "ok" and model["obj"]:
+            unit_measure = {"kpc": "angular_diameter_distance", "Mpc": "angular_diameter_distance", "kpc/h": "comoving_distance",
+                            "Mpc/h": "comoving_distance", "rad": "rad"}.get(model["obj"][2], "deg")
+            dev_ok, decl_ok = True, True
+            for who, measure, div, pw, cid in seq:
+                target = cfg if who == "n" else prev
+                own = world.cosmo_id(target.cosmology)
+                for z in Z_PROBE:
+                    got = target.scales.scales.get_angle_radian(z, target.cosmology)
+                    for g, toks in zip(got, (model["obj"][0], model["obj"][1])):
+                        r = [float(t) for t in toks]
+                        dev_ok = dev_ok and bool(np.allclose(g, world.expected_angle(r, measure, div, cid, z, pw), rtol=1e-10, atol=0.0))
+                        decl_ok = decl_ok and bool(np.allclose(g, world.expected_angle(r, unit_measure, div, own, z, 1), rtol=1e-10, atol=0.0))
+            real["angle_seq"] = dict(matches_deviation=dev_ok, matches_declared=decl_ok)
+            present = dev_ok and not decl_ok
     elif aspect == "outcome":
         present = real["out"] == model["out"] and (real["err"] == model["err"] if real["out"] == "rejects" else same_obj(real.get("obj", ()), model["obj"]))
     elif aspect == "end_points":
@@ -1369,13 +1470,29 @@ def run(ctx: Ctx) -> None:
     missing = [k for k in itertools.product(("create", "modify_cosmology", "modify_other"), ("single", "multi"), ("physical", "comoving"), CURVED + ("customDA",))
                if k not in classes]
     ctx.require(not missing, f"domains lack accepted cases for cosmologies without D_A = D_C/(1+z): {missing[:6]}")
+    # repeated observation of one object for every unit; configurations built from the parts of a donor with ANOTHER cosmology,
+    # observed donor-first and new-first, each of them repeatedly, physical and comoving units, single and multiple scales
+    rclasses, repeated_units = set(), set()
+    for c in all_cases.values():
+        if c.out != "ok" or c.verdict != "accept":
+            continue
+        whos = [o[0] for o in c.seq]
+        ctx.require(len(whos) >= 2 and whos.count("n") >= 1, f"case without repeated angle observation: {c.key}")
+        if whos.count("n") >= 2:
+            repeated_units.add(c.obj[2])
+        if c.op == "rebuild" and {o[4] for o in c.seq if o[0] == "d"} - {c.angle[2]} and c.obj[2] in ("kpc", "Mpc", "kpc/h", "Mpc/h"):
+            rclasses.add((whos[0], "physical" if c.obj[2] in ("kpc", "Mpc") else "comoving", "multi" if len(c.obj[0]) > 1 else "single",
+                          "both_repeated" if whos.count("d") + whos.count("n") >= 3 else "once"))
+    ctx.require(repeated_units >= set(UNITS), f"no repeated angle observation for units {sorted(set(UNITS) - repeated_units)}")
+    missing = [k for k in itertools.product(("d", "n"), ("physical", "comoving"), ("single", "multi"), ("both_repeated",)) if k not in rclasses]
+    ctx.require(not missing, f"domains lack rebuilds (shared parts, other cosmology) for: {missing[:6]}")
     t_replay = time.time()
     with scratch("c15_") as tmp:
         nproc = 4 if quick else 8
         merged = replay_parallel(ctx, world, groups, tmp, nproc)
         for name, n in merged["per_slice"].items():
             per_slice[name]["replayed"] += n
-        binding_demo(ctx, world, all_cases, merged["passed"], tmp, merged["passed_angles"])
+        binding_demo(ctx, world, all_cases, merged["passed"], tmp, merged["passed_angles"], merged["passed_rebuilds"])
     stats = merged["stats"]
     ctx.extra["slices"] = per_slice
     ctx.extra["replay"] = stats
@@ -1384,6 +1501,8 @@ def run(ctx: Ctx) -> None:
     ctx.exhaustive = True
     ctx.require(stats["accept"] > 0 and stats["reject"] > 0 and stats["comoving"] > 0 and stats["angles"] > 0,
                 "replay did not reach accepted, rejected and comoving cases")
+    ctx.require((stats["angles_repeated"] > 0 and stats["angles_on_shared_parts_other_cosmology"] > 0 and stats["rebuilds"] > 0) or bool(ctx._violations),
+                "replay made no repeated angle observation / none on parts shared with a configuration of another cosmology")
     ctx.require(stats["angles_measures_differ"] > 0 or bool(ctx._violations),
                 "replay compared no angle for a cosmology whose distance measures differ although nothing was reported")
 
@@ -1403,11 +1522,12 @@ def _replay_bucket(i: int) -> dict:
         per_slice[name] = per_slice.get(name, 0) + rep.stats["cases"] - before
     return dict(viol=ctx._violations, drift=ctx._drift, evaluations=ctx.evaluations, nontrivial=[hash(k) for k in ctx.nontrivial],
                 validated=ctx.traces_validated, stats=rep.stats, per_slice=per_slice, passed=[tuple_of(c) for c in rep.passed[:40]],
-                passed_angles=[tuple_of(c) for c in rep.passed_angles])
+                passed_angles=[tuple_of(c) for c in rep.passed_angles],
+                passed_rebuilds=[(tuple_of(a), tuple_of(b)) for a, b in rep.passed_rebuilds])
 
 
 def tuple_of(c: Case) -> tuple:
-    return ("case", c.p0, c.mods, (c.op, c.out, c.err, c.step, c.verdict), c.obj, c.decl, c.rs, c.rb, c.rc, c.angle, c.eq, c.rt)
+    return ("case", c.p0, c.mods, (c.op, c.out, c.err, c.step, c.verdict), c.obj, c.decl, c.rs, c.rb, c.rc, c.angle, c.eq, c.rt, c.seq)
 
 
 def replay_parallel(ctx: Ctx, world: World, groups: list, tmp, nproc: int) -> dict:
@@ -1431,7 +1551,7 @@ def replay_parallel(ctx: Ctx, world: World, groups: list, tmp, nproc: int) -> di
     _SHARED = None
     stats: dict = {}
     per_slice: dict = {}
-    passed, passed_angles = [], []
+    passed, passed_angles, passed_rebuilds = [], [], []
     for o in outs:
         for v in o["viol"]:
             for _ in range(v["count"]):
@@ -1453,10 +1573,11 @@ def replay_parallel(ctx: Ctx, world: World, groups: list, tmp, nproc: int) -> di
             per_slice[k] = per_slice.get(k, 0) + v
         passed += [Case(t) for t in o["passed"]]
         passed_angles += [Case(t) for t in o["passed_angles"]]
-    return dict(stats=stats, per_slice=per_slice, passed=passed, passed_angles=passed_angles)
+        passed_rebuilds += [(Case(a), Case(b)) for a, b in o["passed_rebuilds"]]
+    return dict(stats=stats, per_slice=per_slice, passed=passed, passed_angles=passed_angles, passed_rebuilds=passed_rebuilds)
 
 
-def binding_demo(ctx: Ctx, world: World, all_cases: dict, passed: list, tmp, passed_angles=()) -> None:
+def binding_demo(ctx: Ctx, world: World, all_cases: dict, passed: list, tmp, passed_angles=(), passed_rebuilds=()) -> None:
     """Binding demonstration: a case whose EXPECTED state is corrupted must be
     flagged by the comparison with the real library (on a private context).
     Uses cases the real library passed; if it passes none (a badly broken
@@ -1469,11 +1590,11 @@ def binding_demo(ctx: Ctx, world: World, all_cases: dict, passed: list, tmp, pas
         ctx.extra["binding_demonstration"] = "skipped: the library under test passed no create case"
         return
 
-    def flagged(t) -> list:
+    def flagged(t, *more) -> list:
         private = Ctx("C15", ctx.tier, ctx.seed)
         rp = Replayer(private, world, True)
         rp.tmpdir = tmp
-        rp.replay_tree([Case(t)])
+        rp.replay_tree([Case(t)] + [Case(m) for m in more])
         return [v["key"] for v in private._violations]
 
     demos = {}
@@ -1491,24 +1612,42 @@ def binding_demo(ctx: Ctx, world: World, all_cases: dict, passed: list, tmp, pas
     if passed_angles:
         a = passed_angles[0]
         t = tuple_of(a)
-        for name, ang in (("angle_distance_measure", ("comoving_distance/(1+z)",) + a.angle[1:]),
-                          ("angle_cosmology", a.angle[:2] + ("Planck15" if a.angle[2] != "Planck15" else "WMAP9", a.angle[3]))):
-            keys = flagged(t[:9] + (ang,) + t[10:])
+        other = "Planck15" if a.angle[2] != "Planck15" else "WMAP9"
+        for name, seq in (("angle_distance_measure", tuple((o[0], "comoving_distance/(1+z)") + o[2:] for o in a.seq)),
+                          ("angle_cosmology", tuple(o[:4] + (other,) for o in a.seq)),
+                          ("angle_of_repeated_observation", a.seq[:-1] + (a.seq[-1][:4] + (other,),)),
+                          ("angle_divisor_applied_twice", a.seq[:-1] + (a.seq[-1][:3] + (2,) + a.seq[-1][4:],) if a.seq[-1][2] != 1 else None)):
+            if seq is None:
+                continue
+            keys = flagged(t[:12] + (seq,))
             demos[name] = keys[:2]
             ctx.require(any(k.endswith("angle_differs") for k in keys), f"binding demonstration failed: corrupted expectation ({name}) was not noticed")
         flat = [c for c in creates if c.angle[3] == REL_TIED and c.angle[0] == "angular_diameter_distance"]
         if flat:
             t = tuple_of(flat[0])
-            keys = flagged(t[:9] + (("comoving_distance/(1+z)",) + flat[0].angle[1:],) + t[10:])
+            keys = flagged(t[:12] + (tuple((o[0], "comoving_distance/(1+z)") + o[2:] for o in flat[0].seq),))
             demos["angle_distance_measure_on_flat_cosmology(invisible)"] = [k for k in keys if "angle" in k]
     else:
         ctx.require(bool(ctx._violations), "no physical-unit case with a cosmology without D_A = D_C/(1+z) passed although nothing was reported")
         demos["angle_distance_measure"] = "skipped: the library under test passed no such case"
+    # shared parts: the expectation "the donor returns the angles of the NEW configuration's cosmology" (what a memo on the
+    # shared Scales object would give) must be noticed, the untouched pair must be silent
+    if passed_rebuilds:
+        par, reb = passed_rebuilds[0]
+        tp, tr = tuple_of(par), tuple_of(reb)
+        newc = reb.angle[2]
+        keys = flagged(tp, tr[:12] + (tuple(o[:4] + (newc,) if o[0] == "d" else o for o in reb.seq),))
+        demos["angle_of_donor_sharing_parts"] = keys[:2]
+        ctx.require(any(k.endswith("angle_differs") for k in keys), "binding demonstration failed: corrupted expectation (donor's angles after a rebuild) was not noticed")
+        ctx.require(not any("get_angle_radian" in k for k in flagged(tp, tr)), "binding demonstration failed: an unmodified create + rebuild pair is flagged")
+    else:
+        ctx.require(bool(ctx._violations), "no rebuild case (distance unit, other cosmology) passed although nothing was reported")
+        demos["angle_of_donor_sharing_parts"] = "skipped: the library under test passed no such case"
     # a rejected case presented as 'accept' / an accepted one as 'reject'
     g, c = creates[0], rejects[0]
-    keys = flagged(("case", c.p0, c.mods, (c.op, "ok", "-", "done", "accept"), g.obj, g.decl, c.rs, c.rb, c.rc, g.angle, g.eq, g.rt))
+    keys = flagged(("case", c.p0, c.mods, (c.op, "ok", "-", "done", "accept"), g.obj, g.decl, c.rs, c.rb, c.rc, g.angle, g.eq, g.rt, g.seq))
     ctx.require(any("raises_" in k for k in keys), "binding demonstration failed: wrong verdict not noticed")
-    keys = flagged(("case", g.p0, g.mods, (g.op, "rejects", "ValueError", "binning", "reject"), (), g.decl, g.rs, g.rb, g.rc, g.angle, g.eq, g.rt))
+    keys = flagged(("case", g.p0, g.mods, (g.op, "rejects", "ValueError", "binning", "reject"), (), g.decl, g.rs, g.rb, g.rc, g.angle, g.eq, g.rt, g.seq))
     ctx.require(any(k.endswith("accepted_invalid") for k in keys), "binding demonstration failed: accepted case presented as reject not noticed")
     # the untouched case itself must be silent
     ctx.require(not flagged(tuple_of(g)) or all("__eq__" in k or "from_" in k or "end_points" in k for k in flagged(tuple_of(g))),
